@@ -171,6 +171,28 @@ Proof.
   vm_compute. intros H. inversion H.
 Qed.
 
+(* second refuted class of the solver selection: the triangularity test is np.allclose with its ABSOLUTE tolerance 1e-8, so a
+   full matrix all of whose entries are below 1e-8 (standard deviations above 1e8) counts as lower triangular and only its
+   lower triangle is inverted:  S = 2^-30 [[2,1],[1,1]] *)
+Lemma gauss_tiny_scale_refuted :
+  let c : Q := 1 # 1073741824 in                       (* 2^-30 *)
+  let S1 : Qmat := [[2; 1]; [1; 1]] in
+  exists (T : Qmat) (mean off : Qvec),
+    let S := qmscale c S1 in
+    is_lower S = true /\ tril S <> S /\
+    gauss_ok true false mean S off T = true /\
+    (* covariance test in scale-free form: (S1^T S1) ((cT)(cT)^T) = (S^T S)(T T^T) *)
+    cov_matches tol6 1 (qmm (qtr S1) S1) (qmscale c T) = false /\
+    (* the same matrix at scale 1 takes the general solve, and an exact triangularity test would do so at every scale *)
+    gauss_branch false S1 = BGeneral /\
+    gauss_ok_exact false mean S off (qmscale (/ c) [[1; -1]; [-1; 2]]) = true /\
+    cov_matches tol6 1 (qmm (qtr S1) S1) [[1; -1]; [-1; 2]] = true.
+Proof.
+  exists [[536870912; 0]; [-536870912; 1073741824]], [0; 0], [0; 0].
+  repeat split; try (vm_compute; reflexivity).
+  vm_compute. intros H. inversion H.
+Qed.
+
 (* non-vacuity of the certificate checks: a full non-symmetric square root and its inverse *)
 Lemma gauss_general_example :
   gauss_branch false [[2; 1]; [0; 1]] = BGeneral /\
